@@ -76,6 +76,13 @@ CLAIMED = {
          'Trusted: Lean kernel, Mathlib, the vendored reference copy, the valid-argument generators, NumPy linear algebra shared by both libraries.',
          'Lean 4 equality proofs for the textually different kernels + IK loop soundness proof + double differential correspondence (model vs port, model vs reference)',
          'DESIGN.md section 5 C02'),
+ 'C05': ('Machine-checked theorems (Lean 4, reals): exp6([Ad_T V]) = T exp6([V]) inv(T) for every rigid T (angular part zero or >= the 1e-6 cut-off), hence by induction over the joints '
+         'FKinSpace with base-transformed screws and home equals base * prod exp([S_i]theta_i) * home for chains of any length; clamping is idempotent (out-of-limit vectors are evaluated as if clamped); '
+         'and by induction over every history of FK / IK (either solver, arbitrary answers) / move / stationary move / tool change / restore / randomPos the reported tool pose is the product-of-exponentials pose of the stored joint vector '
+         'with the current base and tool home. The Arm state machine is tied to the real class by replaying histories (solver answers as oracle inputs); FK is also compared with SciPy expm from the constructor arguments.',
+         'Trusted: Lean kernel, Mathlib, harness arm builders and SciPy reference; side condition: no evaluated joint strictly inside the (0,1e-6) band; URDF arms via C13.',
+         'Lean 4 proofs (conjugation of the exponential, induction over chains and over operation histories) + history-replay correspondence + SciPy-expm falsifier',
+         'DESIGN.md section 5 C05'),
 }
 NA_REASON = 'check not built yet in this round (work in progress; DESIGN.md section 8 gives the build order)'
 
